@@ -598,8 +598,7 @@ class World:
                     # (the flush's backing write that just landed was started one write latency ago)
                     started = self.now_ns() - self.sc["lat"]["w"] * 1000
                     owed_put = [w for w in self.writes[k] if w["kind"] == "put" and w["value"] == v]
-                    if owed_put and owed_put[-1]["inv"] > seg["inv"] and owed_put[-1]["t_inv"] >= started \
-                            and self.timeline[k][-1][0] == self.now_ns():
+                    if owed_put and owed_put[-1]["inv"] > seg["inv"] and owed_put[-1]["t_inv"] >= started:
                         cause = "dirty-flag-cleared-by-flush-after-concurrent-put"
                     elif owed_put and self.timeline[k][-1][0] == self.now_ns():
                         cause = "dirty-flag-cleared-by-flush-that-wrote-superseded-value"
